@@ -399,7 +399,11 @@ func vsS25() {
 	a0 := vNewSync(vMakeText(1, 0))
 	b0, b1 := vNewSync(vMakeText(2, 0)), vNewSync(vMakeText(1, 0))
 	c0, c1 := vNewSync(vMakeText(3, 0)), vNewSync(vMakeText(2, 0))
-	ba, _ := e.p.Add(4, mf, BarFillerTrim(), BarPriority(10), PrependDecorators(a0))
+	optsA := []BarOption{BarFillerTrim(), PrependDecorators(a0)}
+	if vParam("failingBarPoppedFirst") != 0 {
+		optsA = append(optsA, BarPriority(10))
+	}
+	ba, _ := e.p.Add(4, mf, optsA...)
 	bb, _ := e.p.Add(4, vNewMark(1), BarFillerTrim(), PrependDecorators(b0, b1))
 	bc, _ := e.p.Add(4, vNewMark(2), BarFillerTrim(), PrependDecorators(c0, c1))
 	if mode == vManual {
